@@ -1,5 +1,6 @@
 import Memterm.Props.C07
-import Memterm.Props.C08
+import Memterm.Proofs.Sgr
+import Memterm.Spec.C12
 
 /-
   C12 — SM/RM switch exactly the named modes with their documented side effects.
@@ -10,20 +11,6 @@ namespace C12
 open Gen
 
 /-! #### frames of the building blocks -/
-
-/-- fields that none of the mode side effects except the named ones touch -/
-structure Quiet (s s' : Screen) : Prop where
-  mode : s'.mode = s.mode
-  tabstops : s'.tabstops = s.tabstops
-  title : s'.title = s.title
-  icon : s'.icon = s.icon
-  g0 : s'.g0 = s.g0
-  g1 : s'.g1 = s.g1
-  g1Active : s'.g1Active = s.g1Active
-  savepoints : s'.savepoints = s.savepoints
-  attr : s'.cursor.attr = s.cursor.attr
-  hidden : s'.cursor.hidden = s.cursor.hidden
-  lines : s'.lines = s.lines
 
 theorem Quiet.refl (s : Screen) : Quiet s s := ⟨rfl, rfl, rfl, rfl, rfl, rfl, rfl, rfl, rfl, rfl, rfl⟩
 
@@ -96,7 +83,7 @@ theorem quiet_homeIf (s : Screen) (b : Bool) : Quiet s (homeIf b s) := by
 /-! #### membership: exactly the listed numbers are added / removed -/
 
 theorem sgr_mode (s : Screen) (a : List Nat) : (selectGraphicRendition s a).mode = s.mode := by
-  rw [C08.sgr_eq_spec]
+  rw [sgr_frame]
 
 theorem applySet_mode (s : Screen) (ml : List Nat) (m : Nat) :
     (applySetModes s ml).mode m = (ml.contains m || s.mode m) := by
@@ -146,11 +133,6 @@ theorem mode_numbers :
 
 /-! #### any other mode number: recorded, no other effect -/
 
-/-- none of the four modes with an immediate side effect is in the list -/
-def plain (ml : List Nat) : Prop :=
-  ml.contains DECSCNM = false ∧ ml.contains DECCOLM = false ∧ ml.contains DECOM = false ∧
-  ml.contains DECTCEM = false
-
 theorem sm_other (s : Screen) (ms : List Nat) (p : Bool) (h : plain (shiftModes ms p)) :
     setMode s ms p = addModes s (shiftModes ms p) := by
   obtain ⟨h1, h2, h3, h4⟩ := h
@@ -177,12 +159,6 @@ theorem rm_dectcem (s : Screen) (ms : List Nat) (p : Bool) (h : (shiftModes ms p
   simp only [h, if_true]
 
 /-! cursor homing -/
-
-/-- the documented home position: column 0, the top margin in origin mode, else row 0 -/
-def homeRow (s : Screen) : Nat :=
-  match s.margins, s.mode DECOM with
-  | some (t, _), true => t
-  | _, _ => 0
 
 theorem home_spec (s : Screen) (h : Inv s) :
     (cursorPosition s none none).cursor.x = 0 ∧ (cursorPosition s none none).cursor.y = homeRow s ∧
@@ -257,18 +233,6 @@ theorem rm_decom (s : Screen) (h : Inv s) (ms : List Nat) (p : Bool)
 
 /-! DECSCNM -/
 
-theorem reverse_flag_true (d a : Attr) : (C08.specSgr d [7] a).reverse = true := by
-  have : C08.specSgr d [7] a = { a with reverse := true } := by
-    rw [C08.sgr_single d a 7 (by decide) (by decide) (by decide)]
-    rfl
-  rw [this]
-
-theorem reverse_flag_false (d a : Attr) : (C08.specSgr d [27] a).reverse = false := by
-  have : C08.specSgr d [27] a = { a with reverse := false } := by
-    rw [C08.sgr_single d a 27 (by decide) (by decide) (by decide)]
-    rfl
-  rw [this]
-
 /-- DECSCNM (without DECCOLM in the same list): every cell, the current rendition and the
     default rendition get reverse video, every row is dirty, nothing else about the cells changes -/
 theorem sm_decscnm (s : Screen) (ms : List Nat) (p : Bool)
@@ -304,13 +268,12 @@ theorem sm_decscnm (s : Screen) (ms : List Nat) (p : Bool)
         selectGraphicRendition (setAllReverse (addModes (markAllDirty s) (shiftModes ms p)) true) [7] := by
       unfold applySetModes; simp only [hc, if_true]
   · intro y x
-    rw [f1, g1, ha, C08.sgr_eq_spec]
+    rw [f1, g1, ha, sgr_frame]
     rfl
-  · rw [f9, g3, ha, C08.sgr_eq_spec]
-    show (C08.specSgr (defaultAttr (setAllReverse (addModes (markAllDirty s) (shiftModes ms p)) true)) [7] _).reverse = true
-    exact reverse_flag_true _ _
+  · rw [f9, g3, ha, sgr_frame]
+    exact sgr7_reverse _
   · intro r hr
-    rw [f8, g2, ha, C08.sgr_eq_spec]
+    rw [f8, g2, ha, sgr_frame]
     simp [setAllReverse, addModes, markAllDirty, markDirtyRange, hr]
 
 theorem rm_decscnm (s : Screen) (ms : List Nat) (p : Bool)
@@ -345,13 +308,12 @@ theorem rm_decscnm (s : Screen) (ms : List Nat) (p : Bool)
         selectGraphicRendition (setAllReverse (removeModes (markAllDirty s) (shiftModes ms p)) false) [27] := by
       unfold applyResetModes; simp only [hc, if_true]
   · intro y x
-    rw [f1, g1, ha, C08.sgr_eq_spec]
+    rw [f1, g1, ha, sgr_frame]
     rfl
-  · rw [f9, g3, ha, C08.sgr_eq_spec]
-    show (C08.specSgr (defaultAttr (setAllReverse (removeModes (markAllDirty s) (shiftModes ms p)) false)) [27] _).reverse = false
-    exact reverse_flag_false _ _
+  · rw [f9, g3, ha, sgr_frame]
+    exact sgr27_reverse _
   · intro r hr
-    rw [f8, g2, ha, C08.sgr_eq_spec]
+    rw [f8, g2, ha, sgr_frame]
     simp [setAllReverse, removeModes, markAllDirty, markDirtyRange, hr]
 
 /-! DECCOLM -/
@@ -361,7 +323,7 @@ theorem applySet_geom (s : Screen) (ml : List Nat) :
     (applySetModes s ml).savedColumns = s.savedColumns ∧ (applySetModes s ml).margins = s.margins := by
   unfold applySetModes
   split
-  · rw [C08.sgr_eq_spec]; exact ⟨rfl, rfl, rfl, rfl⟩
+  · rw [sgr_frame]; exact ⟨rfl, rfl, rfl, rfl⟩
   · exact ⟨rfl, rfl, rfl, rfl⟩
 
 theorem applyReset_geom (s : Screen) (ml : List Nat) :
@@ -369,7 +331,7 @@ theorem applyReset_geom (s : Screen) (ml : List Nat) :
     (applyResetModes s ml).savedColumns = s.savedColumns ∧ (applyResetModes s ml).margins = s.margins := by
   unfold applyResetModes
   split
-  · rw [C08.sgr_eq_spec]; exact ⟨rfl, rfl, rfl, rfl⟩
+  · rw [sgr_frame]; exact ⟨rfl, rfl, rfl, rfl⟩
   · exact ⟨rfl, rfl, rfl, rfl⟩
 
 /-- erase-all followed by homing: every cell of the grid is the cursor's blank, the cursor is home -/
@@ -509,37 +471,6 @@ theorem rm_deccolm (s : Screen) (h : Inv s) (ms : List Nat) (p : Bool)
 
 /-! #### executable predicate -/
 
-def blankWith (a : Attr) : Cell := { data := strSpace, attr := a }
-
-def effectful (ml : List Nat) : Bool :=
-  ml.contains DECSCNM || ml.contains DECCOLM || ml.contains DECOM || ml.contains DECTCEM
-
-def propModes (cands : List Nat) (pre post : Screen) (ml : List Nat) (isSet : Bool) : Bool :=
-  cands.all (fun m => post.mode m ==
-    (if isSet then ml.contains m || pre.mode m else !ml.contains m && pre.mode m)) &&
-  (effectful ml ||
-    (decide (post.cursor = pre.cursor) && sameSettingsB cands { pre with mode := post.mode } post &&
-     sameCellsB pre post && sameDirtyB pre post)) &&
-  (!ml.contains DECTCEM || post.cursor.hidden == !isSet) &&
-  (!ml.contains DECOM || (post.cursor.x == 0 && post.cursor.y == homeRow post)) &&
-  (!(ml.contains DECSCNM && !ml.contains DECCOLM) ||
-    (allCellsB pre.lines pre.columns (fun y x =>
-        decide (post.cell y x = { pre.cell y x with attr := { (pre.cell y x).attr with reverse := isSet } })) &&
-     post.cursor.attr.reverse == isSet &&
-     (List.range pre.lines).all (fun r => post.dirty r))) &&
-  (!ml.contains DECCOLM ||
-    (post.columns == (if isSet then 132
-        else if pre.columns == 132 then pre.savedColumns.getD pre.columns else pre.columns) &&
-     post.lines == pre.lines &&
-     allCellsB post.lines post.columns (fun y x => decide (post.cell y x = blankWith post.cursor.attr)) &&
-     post.cursor.x == 0 && post.cursor.y == homeRow post))
-
-def propC12 (cands : List Nat) (pre : Screen) (c : Call) (post : Screen) : Bool :=
-  match c with
-  | .setMode ms p => propModes cands pre post (shiftModes ms p) true
-  | .resetMode ms p => propModes cands pre post (shiftModes ms p) false
-  | _ => true
-
 theorem effectful_false {ml : List Nat} (h : effectful ml = false) : plain ml := by
   simp only [effectful, Bool.or_eq_false_iff] at h
   exact ⟨h.1.1.1, h.1.1.2, h.1.2, h.2⟩
@@ -638,3 +569,4 @@ example :
 
 end C12
 end Memterm
+
